@@ -201,8 +201,8 @@ func runChain(out *sink, op string, validateOnly bool) string {
 				return "fail client"
 			}
 			if bad := Expect(spec).BadList; bad != "" && r.class == "err" && classify(r.detail) == "list-response-shape" {
-				// a method with a j5.list.v1.QueryRequest property whose response is not list shaped: the
-				// compiler accepts it, buildListRequest refuses the API (open finding)
+				// a method with a j5.list.v1.QueryRequest property whose response is not list shaped, and the
+				// compiler accepted it (repaired finding, fix 57821b0: a regression of checkListMethod)
 				out.fail("client:err:list-response-shape", "method "+bad+": "+r.detail)
 				out.count("pkg.bad-list-shape")
 				return "fail client"
